@@ -186,6 +186,7 @@ func (r *Runner) Report(p Prog, o Outcome) {
 		if !ok || next == cur {
 			return
 		}
+		next = stabilise(next)
 		no := r.eval(next)
 		if !no.Accepted || no.Class == "" {
 			if len(red.Core) < 2 {
@@ -195,6 +196,7 @@ func (r *Runner) Report(p Prog, o Outcome) {
 			if !ok {
 				return
 			}
+			next = stabilise(next)
 			no = r.eval(next)
 			if !no.Accepted || no.Class == "" {
 				return
@@ -203,6 +205,23 @@ func (r *Runner) Report(p Prog, o Outcome) {
 		atomic.AddInt64(&r.extraCores, 1)
 		cur, class = next, no.Class
 	}
+}
+
+// stabilise round-trips a synthetic program through lift and print until the
+// text is a fixed point, so that what is evaluated is what the model means.
+func stabilise(src string) string {
+	for i := 0; i < 4; i++ {
+		f, ok := Lift(src)
+		if !ok {
+			return src
+		}
+		p := f.String()
+		if p == src {
+			return src
+		}
+		src = p
+	}
+	return src
 }
 
 // RemoveNode lifts src and deletes the node with the given ID.
